@@ -20,68 +20,55 @@ Qed.
 Definition ended_by_goaway (c' : conn) (code : Z) : Prop :=
   exists c1, c' = cset_out (cset_state c1 C_CLOSED) (c_out c1 ++ [FGoAway (c_hi_in c1) code 0]).
 
-Lemma loop_err_goaway fuel : forall acc c c' e code sid rst,
-  (fix loop (fuel : nat) (acc : list event) : CM (list event) :=
-     match fuel with
-     | O => ret acc
-     | S fuel' =>
-         fun c =>
-         match c_inbuf c with
-         | [] => (c, Ok acc)
-         | (f, blen) :: rest =>
-           let '(c1, res1) :=
-             match frame_buffer_check (c_max_in_frame c) f blen with
-             | FBReject r => (dispatch r ;;; ret []) c
-             | FBYield => receive_frame f (cset_inbuf c rest)
-             end in
-           match res1 with
-           | Ok evs => loop fuel' (acc ++ evs) c1
-           | Err e code sid rst =>
-               if is_protocol_error e then
-                 let '(c2, res2) := terminate_connection code c1 in
-                 match res2 with
-                 | Ok _ => (c2, Err e code sid rst)
-                 | Err e2 a b d => (c2, Err e2 a b d)
-                 | Crash p => (c2, Crash p)
-                 end
-               else (c1, Err e code sid rst)
-           | Crash ForeignError =>
-               let '(c2, res2) := terminate_connection EC_PROTOCOL_ERROR c1 in
-               match res2 with
-               | Ok _ => (c2, perr)
-               | Err e2 a b d => (c2, Err e2 a b d)
-               | Crash p => (c2, Crash p)
-               end
-           | Crash p => (c1, Crash p)
-           end
-         end
-     end) fuel acc c = (c', Err e code sid rst) ->
-  is_protocol_error e = true -> ended_by_goaway c' code.
+Lemma recv_except_goaway c1 res1 c' e code sid rst :
+  (forall evs, res1 <> Ok evs) ->
+  recv_except c1 res1 = (c', Err e code sid rst) -> is_protocol_error e = true -> ended_by_goaway c' code.
 Proof.
-  induction fuel as [|fuel IH]; intros acc c c' e code sid rst H He.
-  - unfold ret in H. discriminate.
-  - destruct (c_inbuf c) as [|[f blen] rest]; [discriminate|].
-    match type of H with (let '(_, _) := ?X in _) = _ => destruct X as [c1 res1] end.
-    destruct res1 as [evs|e1 code1 sid1 rst1|p].
-    + exact (IH _ _ _ _ _ _ _ H He).
-    + destruct (is_protocol_error e1) eqn:Ep.
-      * rewrite terminate_closed_form in H. cbv zeta in H.
-        destruct (8 <=? c_max_out_frame c1); [|discriminate].
-        injection H as <- <- <- <- <-. exists c1. reflexivity.
-      * injection H as <- <- <- <- <-. rewrite Ep in He. discriminate.
-    + destruct p; try discriminate.
-      rewrite terminate_closed_form in H. cbv zeta in H.
+  intros Hn H He. unfold recv_except in H. destruct res1 as [evs|e1 code1 sid1 rst1|p].
+  - exfalso. exact (Hn evs eq_refl).
+  - destruct (is_protocol_error e1) eqn:Ep.
+    + rewrite terminate_closed_form in H. cbv zeta in H.
       destruct (8 <=? c_max_out_frame c1); [|discriminate].
-      unfold perr in H. injection H as <- <- <- <- <-. exists c1. reflexivity.
+      injection H as <- <- <- <- <-. exists c1. reflexivity.
+    + injection H as <- <- <- <- <-. rewrite Ep in He. discriminate.
+  - destruct p; try discriminate.
+    rewrite terminate_closed_form in H. cbv zeta in H.
+    destruct (8 <=? c_max_out_frame c1); [|discriminate].
+    unfold perr in H. injection H as <- <- <- <- <-. exists c1. reflexivity.
 Qed.
 
+Lemma loop_err_goaway fs : forall acc c c' e code sid rst rem,
+  recv_core fs acc c = (c', Err e code sid rst, rem) ->
+  is_protocol_error e = true -> ended_by_goaway c' code.
+Proof.
+  induction fs as [|[f blen] rest IH]; intros acc c c' e code sid rst rem H He; cbn [recv_core] in H.
+  - discriminate.
+  - destruct (frame_buffer_check (c_max_in_frame c) f blen) as [|rj].
+    + destruct (receive_frame f c) as [c1 res1].
+      destruct res1 as [evs|e1 code1 sid1 rst1|p].
+      * exact (IH _ _ _ _ _ _ _ _ H He).
+      * destruct (recv_except c1 _) as [c2 r2] eqn:Ee. injection H as <- -> _.
+        refine (recv_except_goaway _ _ _ _ _ _ _ _ Ee He). intros evs; discriminate.
+      * destruct (recv_except c1 _) as [c2 r2] eqn:Ee. injection H as <- -> _.
+        refine (recv_except_goaway _ _ _ _ _ _ _ _ Ee He). intros evs; discriminate.
+    + destruct ((dispatch rj ;;; ret []) c) as [c1 res1].
+      destruct res1 as [evs|e1 code1 sid1 rst1|p].
+      * exact (IH _ _ _ _ _ _ _ _ H He).
+      * destruct (recv_except c1 _) as [c2 r2] eqn:Ee. injection H as <- -> _.
+        refine (recv_except_goaway _ _ _ _ _ _ _ _ Ee He). intros evs; discriminate.
+      * destruct (recv_except c1 _) as [c2 r2] eqn:Ee. injection H as <- -> _.
+        refine (recv_except_goaway _ _ _ _ _ _ _ _ Ee He). intros evs; discriminate.
+Qed.
+
+(* the GOAWAY is still the last thing in the state when the buffer is written back *)
 Theorem receive_error_emits_one_goaway fs c c' e code sid rst :
   api_receive fs c = (c', Err e code sid rst) -> is_protocol_error e = true ->
   ended_by_goaway c' code.
 Proof.
   intros H He. unfold api_receive in H.
-  unfold bind at 1 in H. unfold modify at 1 in H. unfold bind at 1 in H. unfold get at 1 in H.
-  exact (loop_err_goaway _ _ _ _ _ _ _ _ H He).
+  destruct (recv_core (c_inbuf c ++ fs) [] c) as [[c1 r1] rem] eqn:E. injection H as <- ->.
+  destruct (loop_err_goaway _ _ _ _ _ _ _ _ _ E He) as [c0 ->].
+  exists (cset_inbuf c0 rem). destruct c0; reflexivity.
 Qed.
 
 (* every exception that can leave receive_data is a ProtocolError (or a subclass) *)
